@@ -1009,11 +1009,9 @@ class LogixDriver(CIPDriver):
             current_group.append(req)
             current_response_size += resp_size
 
-        # test if the first list is empty
-        if grouped_requests[0]:
-            multi_requests = [
-                MultiServiceRequestPacket(self._sequence, group) for group in grouped_requests
-            ]
+        multi_requests = [
+            MultiServiceRequestPacket(self._sequence, group) for group in grouped_requests if group
+        ]
 
         return multi_requests + fragmented_requests
 
